@@ -6,6 +6,7 @@ import (
 	"fmt"
 	"sort"
 	"strings"
+	"sync"
 	"testing"
 
 	"github.com/bool64/cache"
@@ -54,8 +55,10 @@ func (f faultDeleter) Delete(ctx context.Context, key []byte) error {
 		return f.d.Delete(ctx, key) // deletes of a nested (re-entrant) invalidation are not positions of the outer one
 	}
 
+	f.w.mu.Lock() // deleters of different cache names may be called concurrently
 	n := *f.calls
 	*f.calls++
+	f.w.mu.Unlock()
 
 	if n == *f.failAt {
 		return f.err
@@ -138,6 +141,7 @@ type lblWorld struct {
 	nestedRunning bool
 	nestedLabels  []string
 	nestedCount   int
+	mu            sync.Mutex
 	during      []lblOp
 }
 
